@@ -160,7 +160,7 @@ Definition mem (n : N) (l : list N) : bool := existsb (N.eqb n) l.
 Definition find_frag (frags : list fragdef) (n : N) : option fragdef :=
   find (fun fd => fr_name fd =? n) frags.
 
-(* visited fragment names, collected fields (latest first) *)
+(* visited fragment names, collected fields (in document order) *)
 Definition cstate : Type := (list N * list entry)%type.
 Definition collect_fn : Type := N -> sels -> cstate -> option cstate.
 
@@ -170,7 +170,7 @@ Fixpoint collect_go (frags : list fragdef) (rec : collect_fn) (parent : N) (ss :
   match ss with
   | SelNil => Some st
   | SelField f sub rest =>
-      collect_go frags rec parent rest (fst st, mkEntry parent f sub :: snd st)
+      collect_go frags rec parent rest (fst st, snd st ++ [mkEntry parent f sub])
   | SelInline _ tc sub rest =>
       match collect_go frags rec (match tc with Some t => t | None => parent end) sub st with
       | None => None
